@@ -37,6 +37,8 @@ TECHNIQUE = 'bounded-exhaustive input-shape enumeration (boundary-value alphabet
 ASSUMPTIONS = ['constant-lattice periodic trajectories', 'half-cell steps (two minimum images) are excluded from the shift-invariance clauses only']
 
 FACE = alphabets.FACE
+# values a little further from the faces than rounding noise (a tolerance-based snap to the face would move them)
+NEAR = [1 - 1e-6, -7e-6, 0.999993, 1e-6, 1 - 1e-9, 2e-9]
 SHIFTS = [-2, -1, 0, 1, 3]
 SHIFT3 = [(0, 0, 0), (1, 0, 0), (0, -1, 3), (3, 1, -2), (-2, -2, 1), (0, 3, 0)]
 OTHER = (0.3125, 0.71875)  # generic constants on the non-moving axes
@@ -124,6 +126,19 @@ def evaluate(x, M, shift=None, volume=True, deep=True):
         except Exception as e:  # noqa: BLE001
             viols.append((f'volume-raise-{type(e).__name__}', str(e)))
     key = (p1.tobytes(), d.tobytes())
+    if deep and T >= 2:
+        # a queried object that is then extended in place must answer for the whole trajectory
+        try:
+            ta = concretise.make_trajectory(x[:1].copy(), species, M, time_step=1e-15)
+            tb = concretise.make_trajectory(x[1:].copy(), species, M, time_step=1e-15)
+            ta.cumulative_displacements
+            ta.distances_from_base_position()
+            ta.extend(tb)
+            cum_e = np.array(ta.cumulative_displacements)
+            if cum_e.shape != cum.shape or not np.allclose(cum_e, cum, atol=1e-9):
+                viols.append(('cumulative-displacements-stale-after-extend', f'shape {cum_e.shape} vs {cum.shape}'))
+        except Exception as e:  # noqa: BLE001
+            viols.append((f'extend-raise-{type(e).__name__}', str(e)))
     if shift is not None:
         fr = steps - np.floor(steps)
         tie = np.any(np.abs(fr - 0.5) < 1e-9)
@@ -186,12 +201,13 @@ def run_shard(shard) -> Result:
 
     if shard['kind'] == 'axis':
         F, axis = shard['F'], shard['axis']
-        firsts = range(*shard['first']) if 'first' in shard else range(len(FACE))
+        ALPHA = FACE + NEAR if F <= 2 else FACE
+        firsts = range(*shard['first']) if 'first' in shard else range(len(ALPHA))
         for i0 in firsts:
-            if i0 >= len(FACE):
+            if i0 >= len(ALPHA):
                 break
-            for rest in itertools.product(range(len(FACE)), repeat=F - 1):
-                vals = [FACE[i0]] + [FACE[i] for i in rest]
+            for rest in itertools.product(range(len(ALPHA)), repeat=F - 1):
+                vals = [ALPHA[i0]] + [ALPHA[i] for i in rest]
                 x = axis_history(vals, axis)
                 patterns = list(itertools.product(SHIFTS, repeat=F)) if F <= 2 else SHIFT3[: shard.get('n3', 6)]
                 for k, pat in enumerate(patterns):
